@@ -7,7 +7,7 @@
 From Coq Require Import Floats.
 From SC.Model Require Import Base Num NumF64 FloatIO Types Config Case Match Chrono UiTokens Rx Post Parser Items Interp
      RuleFns Rules Format Lexer Api Run64 Corr.
-From SC.Proofs Require Import C04 C18.
+From SC.Proofs Require Import C04 C18 C18_Fresh.
 
 (* add_rule: refused (nothing changes) exactly for an unknown language; otherwise the rule is
    appended behind all existing rules of that language and nothing else changes *)
@@ -53,6 +53,33 @@ Theorem C18_rule_history : forall ck lang ops ros m rs,
               (forall l', l' <> lang -> rules_of (final ck m ops) l' = rules_of m l') /\
               m_sessions (final ck m ops) = m_sessions m.
 Proof. exact rule_history. Qed.
+
+(* THE central clause: after ANY history of registrations and deletions (on a calculator without
+   custom rules for that language, e.g. a fresh one) the whole state - configuration and sessions -
+   equals the state of the calculator on which only the surviving registrations were made, in
+   registration order; hence every later operation is observed identically.  [survivors_spec]:
+   add appends, delete removes the first registration of that name; [adds_of]: one add_rule per
+   survivor.  [rule_op_ok]: the operation is add_rule / delete_rule on [lang] and an add's
+   patterns tokenise without a panic.  Uses: the lexer never reads the rule table. *)
+Theorem C18_lexer_ignores_rules : forall lx ck (c : config float) r lang pats,
+  tokenise_patterns lx ck (set_rules c r) lang pats = tokenise_patterns lx ck c lang pats.
+Proof. exact (@tokenise_patterns_set_rules float NumF64). Qed.
+
+Theorem C18_fresh_equiv : forall ck m lang rs ops,
+  rules_of m lang = Some rs -> api_of rs = [] -> Forall (rule_op_ok ck (m_cfg m) lang) ops ->
+  final ck m ops = final ck m (adds_of lang (survivors_spec ops)).
+Proof. exact fresh_equiv. Qed.
+
+Theorem C18_fresh_equiv_init : forall ck lang ops,
+  Forall (rule_op_ok ck default_config lang) ops ->
+  final ck init_state ops = final ck init_state (adds_of lang (survivors_spec ops)).
+Proof. exact fresh_equiv_init. Qed.
+
+Theorem C18_fresh_run_init : forall ck lang ops evals,
+  Forall (rule_op_ok ck default_config lang) ops ->
+  run ck (final ck init_state ops) evals =
+  run ck (final ck init_state (adds_of lang (survivors_spec ops))) evals.
+Proof. exact fresh_run_init. Qed.
 
 (* register then delete: the previous registrations are restored *)
 Theorem C18_delete_restores : forall name l p a,
@@ -148,6 +175,10 @@ Theorem C18_example :
        "false"; "2 L"; "240 d"]%string.
 Proof. vm_compute. reflexivity. Qed.
 
+Print Assumptions C18_lexer_ignores_rules.
+Print Assumptions C18_fresh_equiv.
+Print Assumptions C18_fresh_equiv_init.
+Print Assumptions C18_fresh_run_init.
 Print Assumptions C18_add_rule.
 Print Assumptions C18_delete_rule.
 Print Assumptions C18_rule_history.
